@@ -133,6 +133,10 @@ def s_feeflow(F, res):
         rv = s["rv"]
         if rv["k"] == "agg" and rv.get("variant") == "Some" and "CompiledTx" in g["locals"][s["lhs"]["l"]]:
             somes.append((bi, s))
+    for bi, t in mir.calls(g):
+        if (t.get("callee") or "").endswith("<impl bool>::then_some") and len(t["args"]) > 1 and "CompiledTx" in g["locals"][t["dest"]["l"]]:
+            # `flag.then_some(eval)`: the Some payload is the second argument
+            somes.append((bi, {"rv": {"ops": [t["args"][1]]}}))
     from_compile = True
     nsome = 0
     for bi, s in somes:
